@@ -317,10 +317,18 @@ def model_lines(P, run, fix=1):
     """driver script of one run, from what the harness observed"""
     out = run["out"]
     lines = [f"start {kv(out[0])['cmnframes']}"]
+    # a streaming utterance is replayed from the chunk lengths alone: the composed model (M5 with c06's front end
+    # inside) computes the front-end responses itself; a batch utterance (full_utt = 1) from the observed responses
+    samples = not any(o.startswith("p ") and o.endswith(" full") for o in run["ops"]) and "naudio" in P
+    left = max(0, min(run["len"], P.get("naudio", 0) - run["off"]))
     for op, o in zip(run["ops"], out[1:1 + len(run["ops"])]):
         d = kv(o.split(" | ")[0])
         w = op.split()
-        if w[0] == "p" and len(w) == 5 and w[4] == "full":
+        if w[0] == "p" and samples:
+            k = min(int(w[2]), left)
+            left -= k
+            lines.append(f"ps {w[3]} {k}")
+        elif w[0] == "p" and len(w) == 5 and w[4] == "full":
             # per loop iteration: e<estimate>, <lim>:<nvec>:<left> (fe_process), <lim>:<n>:0 (fe_end)
             ent = [] if d.get("fe", "-") == "-" else d["fe"].split(",")
             resp, i = [], 0
@@ -341,7 +349,7 @@ def model_lines(P, run, fix=1):
     e = kv(out[-2].split(" | ")[0])
     fe = e.get("fe", "-")
     tail = 0 if fe == "-" else int(fe.split(",")[-1].split(":")[1])
-    lines.append(f"end {tail}")
+    lines.append("ends" if samples else f"end {tail}")
     r = kv(out[-1].split(" | ")[0])
     na = len(parse_sc(r.get("alsc", "-")))
     lines.append(f"align {1 if na else 0} {na}")
@@ -382,6 +390,18 @@ def compare_run(P, run, mout, winmap, problems, stats):
                 problems.append(f"line {idx}: frame {ce[1]}: model window {me[2]} was seen with feature bits {h}, now {ce[3]}")
                 return
             stats["steps"] += 1
+        # the composed model computes the front-end traffic from the chunk length alone: on every fe_process / fe_end
+        # call the room offered (= free slots of the cepstrum ring), the frames yielded and the samples left must agree
+        mk = kv(ms[0])
+        if "FEBAD" in mk:
+            problems.append(f"line {idx}: the front-end model would read outside its buffers")
+            return
+        if "fe" in mk:
+            stats["fe_calls_tied"] = stats.get("fe_calls_tied", 0) + (0 if mk["fe"] == "-" else mk["fe"].count(",") + 1)
+            if mk["fe"] != d.get("fe", "-"):
+                problems.append(f"line {idx} ({(['utt'] + run['ops'] + ['end', 'res'])[idx]}): front-end calls <room>:<frames>:<samples left>: "
+                                f"C={d.get('fe', '-')[:200]} model={mk['fe'][:200]}")
+                return
         # front-end contract used by the model: never more frames than the limit
         fe = d.get("fe", "-")
         if fe != "-":
@@ -455,7 +475,7 @@ def branch_stats(P, run, stats):
 
 
 def run_model(P, runs, cmn0):
-    lines = [f"init {P['win']} {cmn0} 1"]
+    lines = [f"init {P['win']} {cmn0} 1", f"cfg {P['fsize']} {P['fshift']}"]
     spans = []
     for r in runs:
         ml = model_lines(P, r)
@@ -856,10 +876,16 @@ def check(c):
                       "cmn != none; acmod_set_grow(FALSE) is not reachable through the decoder API",
 "no assumption on the size of the cepstrum ring any more: the streaming theorems hold for every n_mfc_alloc >= 1 (a full_utt "
                       "utterance enlarges it for good; live-buffer clamp, D62 drain loop, D66 and D67 repairs are in the model and proved)",
-                      "front-end contract used as hypothesis of the theorems and checked on every run: fe_process never yields more frames than "
-                      "the limit it was given; fe_end yields the pending frame iff any sample was fed in this utterance",
+                      "front end: Props/C07Fe.lean composes M5 with c06's model of fe_process/fe_end (Model/FeBuf.lean, D25-repaired), so "
+                      "for streaming utterances the front-end contract (never more frames than the room offered; fe_end yields the "
+                      "pending frame iff frames were delivered or samples are pending) is a theorem, under 0 < frame_shift < frame_size; "
+                      "it is also checked on every run, and for every streaming utterance the driver replays the composed model from the chunk "
+                      "lengths alone and every fe call's <room offered>:<frames>:<samples left> must equal the observed one; the batch "
+                      "regime (full_utt = 1) still takes the observed responses as given",
+                      "frame_shift < frame_size (with frame_shift = frame_size an utterance ending exactly on a window boundary has no "
+                      "fe_end frame and acmod_end_utt then never flushes the end padding: outside the shipped configurations)",
                       "decoder_alignment is only requested when the current segmentation contains a dictionary word (D27 is C09/C14's)"]
-    if not c.lean_obligations():
+    if not lean_all(c):
         return
     binp = vlib.build_harness("h_c07", extra_flags=WRAP)
     d9 = probe(binp)
@@ -1060,6 +1086,7 @@ def check(c):
                   "rule": "a case = (model+grammar, clip, CMN vector, calling pattern) compared against the single-call reference of the same clip; "
                           "distinct = distinct (clip, pattern) tuples; every pattern differs from the reference in chunking, buffering, entry point or queries",
                   "utterances_decoded": stats["utterances"], "search_steps_compared_with_model": stats["steps"],
+                  "front_end_calls_predicted_by_the_composed_model_from_chunk_lengths_and_compared (room:frames:left)": stats.get("fe_calls_tied", 0),
                   "pattern_kinds": dict(stats["kinds"]), "chunk_size_histogram_samples": dict(stats["chunks"]),
                   "entry_points": dict(stats["entry"]), "no_search_flag": dict(stats["nosearch"]), "partial_queries": dict(stats["queries"]),
                   "clip_length_frames": dict(stats["clip_frames"]), "patterns_with_first_chunk_shorter_than_a_window": stats["first_chunk_lt_window"],
@@ -1075,8 +1102,18 @@ def check(c):
                   "d9_stale_assert_present_chunks_capped_at_32767": d9})
 
 
+def lean_all(c):
+    """Props/C07.lean (M5) and Props/C07Fe.lean (M5 with c06's front-end model inside; imports Props/C06.lean)"""
+    c.leanchecker_modules = lambda: ["SSVerif.Props.C07", "SSVerif.Props.C07Fe"]
+    ok = c.lean_obligations(extra_targets=("SSVerif.Props.C07Fe",))
+    hits = vlib.grep_forbidden(["SSVerif.Props.C07Fe"])
+    c.oblige("no sorry/admit/axiom/native_decide/bv_decide/implemented_by/unsafe/maxHeartbeats 0 in the modules "
+             "Props/C07Fe.lean (front-end composition) imports", not hits, hits)
+    return ok and not hits
+
+
 def replay(c, path):
-    c.lean_obligations()
+    lean_all(c)
     binp = vlib.build_harness("h_c07", extra_flags=WRAP)
     obj = json.loads(open(path).read())
     g = group_by_name(obj.get("group", GROUPS[0]["name"]))
